@@ -72,6 +72,16 @@ var setupPhase = map[string]string{
 	"block.Provider":    "constructor (entity provider)",
 	"round.SetupEntity": "process set-up",
 	"block.SetupEntity": "process set-up",
+	// block under construction by its generator, before it is signed and sent (callers at the pinned commit:
+	// miner/protocol_block_main.go:25 hashAndSignGeneratedBlock; integration-test files)
+	"Block.HashBlock": "generation phase: the generator hashes its own new block before publishing it",
+	// miner/protocol_block.go:1290 (generateBlock, same phase)
+	"Block.SetStateChangesCount": "generation phase (generateBlock)",
+	// chaincore/chain/entity.go:1467 (genesis block set-up), miner/protocol_round.go:482 (new block before generation)
+	"UnverifiedBlockBody.SetRoundRandomSeed": "generation phase / genesis set-up",
+	// core/datastore/codec.go:44,62, core/datastore/handler.go:46,88, core/memorystore/store.go:53,188: called by the
+	// decoders on the entity they have just filled, before anyone else can hold it
+	"Block.ComputeProperties": "decode phase: called on a freshly decoded entity",
 }
 
 // freshFrom: calls whose result is an object no other goroutine can hold yet (accesses through it are not shared).
@@ -107,6 +117,7 @@ type row struct {
 	File   string `json:"file"`
 	Line   int    `json:"line"`
 	Esc    bool   `json:"esc,omitempty"` // the internal slice/map is returned: the caller reads its elements unlocked
+	Own    bool   `json:"own"`           // access to the function's own object: inherits the locks its callers hold on it
 }
 
 type call struct {
@@ -366,7 +377,7 @@ func main() {
 			}
 		}
 		if f.exported {
-			if _, isSetup := setupPhase[k]; isSetup && f.obj.Type().(*types.Signature).Recv() == nil {
+			if _, isSetup := setupPhase[k]; isSetup {
 				setup = append(setup, k)
 				continue
 			}
@@ -393,8 +404,9 @@ func main() {
 		}
 	}
 
-	writeLean(out, gosrc, rows, calls, entries, setup, dead)
-	b, _ := json.MarshalIndent(map[string]interface{}{"accesses": rows, "calls": calls, "entries": entries, "setup": setup, "dead": dead}, "", " ")
+	ctxs := contexts(entries, calls)
+	writeLean(out, gosrc, rows, calls, entries, setup, dead, ctxs)
+	b, _ := json.MarshalIndent(map[string]interface{}{"accesses": rows, "calls": calls, "entries": entries, "setup": setup, "dead": dead, "contexts": ctxs, "gosrc": gosrc}, "", " ")
 	if err := os.WriteFile(out+".json", b, 0o644); err != nil {
 		die("%v", err)
 	}
@@ -421,26 +433,74 @@ func leanLocks(ls []lk) string {
 	return "[" + strings.Join(parts, ", ") + "]"
 }
 
-func writeLean(out, gosrc string, rows []row, calls []call, entries []entry, setup, dead []string) {
+// ctx: entry (or any self-concurrent entry of the group when Origin is "") may run Fn with the locks Locks inherited
+// from its callers on the same object. The list is the closure of the entries under the call edges; Lean re-checks
+// that it is closed (theorem contexts_closed), so nothing rests on this computation.
+type ctx struct {
+	Group  int    `json:"group"`
+	Origin string `json:"origin"` // "" = a self-concurrent entry
+	Fn     string `json:"fn"`
+	Locks  []lk   `json:"locks"`
+}
+
+func contexts(entries []entry, calls []call) []ctx {
+	byCaller := map[string][]call{}
+	for _, c := range calls {
+		byCaller[c.Caller] = append(byCaller[c.Caller], c)
+	}
+	seen := map[string]bool{}
+	var res []ctx
+	var todo []ctx
+	for _, e := range entries {
+		o := e.Fn
+		if e.SelfConc {
+			o = ""
+		}
+		todo = append(todo, ctx{Group: e.Group, Origin: o, Fn: e.Fn, Locks: []lk{}})
+	}
+	for len(todo) > 0 {
+		c := todo[0]
+		todo = todo[1:]
+		k := fmt.Sprint(c)
+		if seen[k] {
+			continue
+		}
+		seen[k] = true
+		res = append(res, c)
+		if len(res) > 5000 {
+			die("context closure does not terminate (recursion with growing locksets?)")
+		}
+		for _, cl := range byCaller[c.Fn] {
+			nl := []lk{}
+			if cl.Same {
+				nl = append(append(nl, c.Locks...), cl.Locks...)
+			}
+			todo = append(todo, ctx{Group: c.Group, Origin: c.Origin, Fn: cl.Callee, Locks: nl})
+		}
+	}
+	return res
+}
+
+func writeLean(out, gosrc string, rows []row, calls []call, entries []entry, setup, dead []string, ctxs []ctx) {
 	var b strings.Builder
 	b.WriteString("import ZChain.Model.LockSet\n/-!\nGENERATED by harness/cmd/xc44 from chaincore/round, chaincore/block and miner/protocol_block.go — do not edit.\n")
 	b.WriteString("Regenerated by `./check C44` on every run; `Props/C44.lean` decides its theorems over this table.\n")
 	b.WriteString("Names are `nm! \"…\"` (the string's bytes as a natural number, see Model/LockSet.lean).\n-/\nnamespace ZChain.Generated.C44\nopen ZChain.LockSet\n\n")
-	b.WriteString("/-- (function, location, write?, locks of the same object held [name, exclusive?], atomic?, line) -/\ndef accesses : List Access := [\n")
+	b.WriteString("/-- (function, location, write?, locks of the same object held [name, exclusive?], atomic?, own object?, line) -/\ndef accesses : List Access := [\n")
 	for i, r := range rows {
 		sep := ","
 		if i == len(rows)-1 {
 			sep = ""
 		}
-		fmt.Fprintf(&b, "  ⟨nm! %q, nm! %q, %v, %s, %v, %d⟩%s\n", r.Fn, r.Loc, r.Write, leanLocks(r.Locks), r.Atomic, r.Line, sep)
+		fmt.Fprintf(&b, "  ⟨nm! %q, nm! %q, %v, %s, %v, %v, %d⟩%s\n", r.Fn, r.Loc, r.Write, leanLocks(r.Locks), r.Atomic, r.Own, r.Line, sep)
 	}
-	b.WriteString("]\n\n/-- (caller, callee, locks the callee inherits: the caller's lockset when it runs on the same object, else none) -/\ndef calls : List Call := [\n")
+	b.WriteString("]\n\n/-- (caller, callee, same object?, locks the caller holds at the call) — the callee inherits locks only when it runs on the same object -/\ndef calls : List Call := [\n")
 	for i, c := range calls {
 		sep := ","
 		if i == len(calls)-1 {
 			sep = ""
 		}
-		fmt.Fprintf(&b, "  ⟨nm! %q, nm! %q, %s⟩%s\n", c.Caller, c.Callee, leanLocks(c.Locks), sep)
+		fmt.Fprintf(&b, "  ⟨nm! %q, nm! %q, %v, %s⟩%s\n", c.Caller, c.Callee, c.Same, leanLocks(c.Locks), sep)
 	}
 	b.WriteString("]\n\n/-- (function, group, may run concurrently with itself?) — entries of one group may run concurrently -/\ndef entries : List Entry := [\n")
 	for i, e := range entries {
@@ -456,6 +516,61 @@ func writeLean(out, gosrc string, rows []row, calls []call, entries []entry, set
 			b.WriteString(", ")
 		}
 		fmt.Fprintf(&b, "nm! %q", s)
+	}
+	b.WriteString("]\n\n/-- closure of the entries under the call edges: (group, origin entry or none for a self-concurrent one, function, inherited locks) -/\ndef contexts : List Ctx := [\n")
+	for i, c := range ctxs {
+		sep := ","
+		if i == len(ctxs)-1 {
+			sep = ""
+		}
+		o := "none"
+		if c.Origin != "" {
+			o = fmt.Sprintf("some (nm! %q)", c.Origin)
+		}
+		fmt.Fprintf(&b, "  ⟨%d, %s, nm! %q, %s⟩%s\n", c.Group, o, c.Fn, leanLocks(c.Locks), sep)
+	}
+	// effective accesses grouped by location (identical ones once)
+	byFn := map[string][]row{}
+	for _, r := range rows {
+		byFn[r.Fn] = append(byFn[r.Fn], r)
+	}
+	type group struct {
+		loc  string
+		effs []string
+		seen map[string]bool
+	}
+	gidx := map[string]*group{}
+	var gs []*group
+	for _, c := range ctxs {
+		o := "none"
+		if c.Origin != "" {
+			o = fmt.Sprintf("some (nm! %q)", c.Origin)
+		}
+		for _, r := range byFn[c.Fn] {
+			ls := r.Locks
+			if r.Own {
+				ls = append(append([]lk{}, c.Locks...), r.Locks...)
+			}
+			e := fmt.Sprintf("⟨%d, %s, nm! %q, nm! %q, %v, %v, %s⟩", c.Group, o, r.Fn, r.Loc, r.Write, r.Atomic, leanLocks(ls))
+			g := gidx[r.Loc]
+			if g == nil {
+				g = &group{loc: r.Loc, seen: map[string]bool{}}
+				gidx[r.Loc] = g
+				gs = append(gs, g)
+			}
+			if !g.seen[e] {
+				g.seen[e] = true
+				g.effs = append(g.effs, e)
+			}
+		}
+	}
+	b.WriteString("]\n\n/-- the accesses of all contexts, by location: (group, origin, function, location, write?, atomic?, effective locks) -/\ndef groups : Groups := [\n")
+	for i, g := range gs {
+		sep := ","
+		if i == len(gs)-1 {
+			sep = ""
+		}
+		fmt.Fprintf(&b, "  (nm! %q, [\n    %s])%s\n", g.loc, strings.Join(g.effs, ",\n    "), sep)
 	}
 	b.WriteString("]\n\ndef table : Table := ⟨accesses, calls, entries⟩\n\nend ZChain.Generated.C44\n")
 	if err := os.WriteFile(out, []byte(b.String()), 0o644); err != nil {
